@@ -9,6 +9,8 @@ import (
 	"fmt"
 	"os"
 	"path/filepath"
+	"runtime"
+	"runtime/pprof"
 	"sort"
 	"strconv"
 	"strings"
@@ -377,13 +379,14 @@ func Main(t *testing.T, h Harness) {
 	hashes := map[uint64]struct{}{}
 	perSig := map[string]int{}
 	lastWrite := time.Now()
-	for i := from; i < to; i++ {
-		if time.Since(start) > wall {
-			break
-		}
+	// The runs are executed in sub-tests of a few thousand runs each: what a run registers with its
+	// *testing.T (cryptotest.SetGlobalRandom keeps a clean-up and a generator per call) is released when the
+	// chunk ends, instead of piling up over the million runs of a thorough batch.
+	var tt *testing.T
+	oneRun := func(i uint64) {
 		rs := simrt.SplitMix(seed, i)
 		curRun = i
-		res := h.runOnce(t, simrt.NewRNG(rs), tier, false)
+		res := h.runOnce(tt, simrt.NewRNG(rs), tier, false)
 		wo.Runs++
 		wo.To = i + 1
 		wo.Steps += res.Steps
@@ -417,7 +420,7 @@ func Main(t *testing.T, h Harness) {
 		}
 		if len(wo.Samples) < 1 && nontrivial && res.Violation == nil {
 			// a sample case for the evidence: the same run again with the trace recorded
-			rr := h.runOnce(t, simrt.NewTape(res.Tape), tier, true)
+			rr := h.runOnce(tt, simrt.NewTape(res.Tape), tier, true)
 			lines := rr.Trace
 			if len(lines) > 40 {
 				lines = append(append([]string(nil), lines[:30]...), fmt.Sprintf("... %d more events", len(rr.Trace)-30))
@@ -429,8 +432,8 @@ func Main(t *testing.T, h Harness) {
 			wo.Oracles[sig]++
 			perSig[sig]++
 			if perSig[sig] <= 2 && len(wo.Violations) < maxViol {
-				min := h.shrink(t, res.Tape, tier, sig, 8*time.Second)
-				rr := h.runOnce(t, simrt.NewTape(min), tier, true)
+				min := h.shrink(tt, res.Tape, tier, sig, 8*time.Second)
+				rr := h.runOnce(tt, simrt.NewTape(min), tier, true)
 				rec := ViolationRecord{Property: h.ID, Oracle: res.Violation.Oracle, Signature: sig, Detail: res.Violation.Detail, Seed: seed, RunIndex: i, TapeLen: len(res.Tape), MinLen: len(min)}
 				if rr.Violation != nil && h.sig(rr.Violation) == sig {
 					rec.Detail = rr.Violation.Detail
@@ -438,7 +441,7 @@ func Main(t *testing.T, h Harness) {
 				} else {
 					// shrinking lost it (should not happen): fall back to the original tape
 					min = res.Tape
-					rr = h.runOnce(t, simrt.NewTape(min), tier, true)
+					rr = h.runOnce(tt, simrt.NewTape(min), tier, true)
 					rec.MinLen = len(min)
 				}
 				if replayDir != "" {
@@ -458,6 +461,27 @@ func Main(t *testing.T, h Harness) {
 			write()
 			lastWrite = time.Now()
 		}
+	}
+	for i := from; i < to; {
+		if time.Since(start) > wall {
+			break
+		}
+		end := min(i+4000, to)
+		t.Run("runs", func(ct *testing.T) {
+			tt = ct
+			for ; i < end && time.Since(start) <= wall; i++ {
+				oneRun(i)
+			}
+		})
+	}
+	if mp := os.Getenv("VERIF_MEMPROFILE"); mp != "" {
+		// development aid: where does a long-running worker keep its memory?
+		runtime.GC()
+		if f, err := os.Create(mp); err == nil {
+			pprof.Lookup("heap").WriteTo(f, 0)
+			f.Close()
+		}
+		fmt.Fprintf(os.Stderr, "goroutines at end: %d\n", runtime.NumGoroutine())
 	}
 	wo.Distinct = len(hashes)
 	wo.SiteHits = simrt.SiteHits()
